@@ -92,6 +92,11 @@ def main(ctx):
             if strw and st[2]:
                 st = (st[0], st[1], False)       # fragmented writes need fixed-size elements (documented; C04 excludes strings)
             jobs.append((cfg, mem0, lst, st, PATTERNS[rng.randrange(3)] if len(lst) > 1 else [0], None))
+    # the same list of operation dicts issued twice on one connection (the caller's dicts must not be consumed), and
+    # operate(validating=True): same results
+    for lst in rng.sample(lists + longer, 40 if ctx.quick else 400):
+        for st in [(0, 0, False, False, True), (2, 0, False, True, False), (1, 500, False, True, True), (0, 0, False, True, False)]:
+            jobs.append((cfg, mem0, lst, st, [0], None))
     # replies larger than one receive buffer (> 4096 octets): many 100-element reads in one bundle
     bigc, bigops = emit.big
     if not bigc or len(bigops) < 4:
